@@ -9,10 +9,11 @@ import (
 
 // Result of running one entry point in-process.
 type Result struct {
-	Class  string // ok | err | panic | bad-op
-	Octets []byte // ngap.Encoder output (Class ok)
-	PDU    *Node  // the builder's return value, reflected BEFORE encoding (nil for wrappers)
-	Raw    *ngapType.NGAPPDU
+	Class   string // ok | err | panic | bad-op
+	Octets  []byte // ngap.Encoder output (Class ok)
+	PDU     *Node  // the builder's return value, reflected BEFORE encoding (nil for wrappers)
+	Raw     *ngapType.NGAPPDU
+	Aliased bool // the result of the PREVIOUS call changed while this one ran
 }
 
 // Run executes `<Name> <plmn|-> <arg tokens…>` in this process. A Go panic is reported as class "panic";
@@ -37,18 +38,45 @@ func Run(toks []string) (res Result) {
 	args := ParseArgs(e, toks[2:])
 	SetPlmnState(toks[1])
 	pdu, octets, err := Call(e, args)
+	// what the previous call handed out must be unaffected by this call (no IE array, buffer or cache shared between messages)
+	aliased := prevChanged()
 	if e.Wrapper {
 		if err != nil {
-			return Result{Class: "err"}
+			prevLive = nil
+			return Result{Class: "err", Aliased: aliased}
 		}
-		return Result{Class: "ok", Octets: octets}
+		snap := string(octets)
+		prevLive = func() bool { return string(octets) != snap }
+		return Result{Class: "ok", Octets: octets, Aliased: aliased}
 	}
 	node := Reflect(reflect.ValueOf(pdu).Elem()) // before encoding: the encoder masks BIT STRING octets in place
 	octets, err = ngap.Encoder(*pdu)
 	if err != nil {
-		return Result{Class: "err", PDU: node, Raw: pdu}
+		prevLive = nil
+		return Result{Class: "err", PDU: node, Raw: pdu, Aliased: aliased}
 	}
-	return Result{Class: "ok", Octets: octets, PDU: node, Raw: pdu}
+	{
+		held, snap := pdu, string(octets)
+		prevLive = func() bool {
+			again, err := ngap.Encoder(*held) // the PDU built by the previous call, encoded after the next one was built
+			return err != nil || string(again) != snap
+		}
+	}
+	return Result{Class: "ok", Octets: octets, PDU: node, Raw: pdu, Aliased: aliased}
+}
+
+var prevLive func() bool
+
+func prevChanged() (changed bool) {
+	if prevLive == nil {
+		return false
+	}
+	defer func() {
+		if recover() != nil {
+			changed = true
+		}
+	}()
+	return prevLive()
 }
 
 // Text is the canonical result of the `build` op.
@@ -59,6 +87,9 @@ func (r Result) Text() string {
 	}
 	if r.PDU != nil {
 		s += " | " + r.PDU.Tokens()
+	}
+	if r.Aliased {
+		s += " ALIASED:previous-builder-call"
 	}
 	return s
 }
